@@ -116,3 +116,125 @@ pub fn k4_initexpr_numeric_const_matches_upstream<S: Src>(s: &mut S) -> Option<(
     Some((a == b, desc!("kind {} bits {:#x}: ours {:?} expected {:?}", kind, bits, a, b)))
 }
 
+
+/// C30/C07/C06/C02: an index-carrying (or GC) initialiser instruction written out by the IR is read back by wasmparser + the IR's own
+/// reader as the same instruction with the same immediates, each in its own position (kind 0: global.get, 1: ref.func, 2..5:
+/// struct.new / struct.new_default / array.new / array.new_default, 6..8: array.new_fixed / _data / _elem, 9: ref.i31)
+pub fn k5_initexpr_index_instr_roundtrip<S: Src>(s: &mut S) -> Option<(bool, String)> {
+    let kind = s.u8();
+    k5_initexpr_index_instr_roundtrip_of(kind, s)
+}
+/// (the instruction kind is a parameter: one harness per kind keeps the decoder's opcode dispatch concrete for CBMC)
+pub fn k5_initexpr_index_instr_roundtrip_of<S: Src>(kind: u8, s: &mut S) -> Option<(bool, String)> {
+    use wasm_encoder::Encode;
+    use W::ir::id::{FunctionID, GlobalID, TypeID};
+    use W::ir::types::{InitExpr, InitInstr};
+    let a = s.u32();
+    let b = s.u32();
+    if kind > 9 { return None; }
+    let instr = match kind {
+        0 => InitInstr::Global(GlobalID(a)),
+        1 => InitInstr::RefFunc(FunctionID(a)),
+        2 => InitInstr::StructNew(TypeID(a)),
+        3 => InitInstr::StructNewDefault(TypeID(a)),
+        4 => InitInstr::ArrayNew(TypeID(a)),
+        5 => InitInstr::ArrayNewDefault(TypeID(a)),
+        6 => InitInstr::RefArrayFixed { array_type_index: a, array_size: b },
+        7 => InitInstr::RefArrayData { array_type_index: a, array_data_index: b },
+        8 => InitInstr::RefArrayElem { array_type_index: a, array_elem_index: b },
+        _ => InitInstr::RefI31,
+    };
+    let ours = W::verif_export::init_expr_to_wasmencoder(&InitExpr::new(vec![instr]));
+    let mut bytes: Vec<u8> = Vec::new();
+    ours.encode(&mut bytes);
+    let cx = wasmparser::ConstExpr::new(wasmparser::BinaryReader::new(&bytes, 0));
+    let ok = match W::verif_export::init_expr_eval(&cx) {
+        Ok(e) => e.exprs.len() == 1 && match (e.exprs[0], instr) {
+            (InitInstr::Global(x), InitInstr::Global(y)) => *x == *y,
+            (InitInstr::RefFunc(x), InitInstr::RefFunc(y)) => *x == *y,
+            (InitInstr::StructNew(x), InitInstr::StructNew(y)) => *x == *y,
+            (InitInstr::StructNewDefault(x), InitInstr::StructNewDefault(y)) => *x == *y,
+            (InitInstr::ArrayNew(x), InitInstr::ArrayNew(y)) => *x == *y,
+            (InitInstr::ArrayNewDefault(x), InitInstr::ArrayNewDefault(y)) => *x == *y,
+            (InitInstr::RefArrayFixed { array_type_index: t1, array_size: s1 }, InitInstr::RefArrayFixed { array_type_index: t2, array_size: s2 }) => t1 == t2 && s1 == s2,
+            (InitInstr::RefArrayData { array_type_index: t1, array_data_index: d1 }, InitInstr::RefArrayData { array_type_index: t2, array_data_index: d2 }) => t1 == t2 && d1 == d2,
+            (InitInstr::RefArrayElem { array_type_index: t1, array_elem_index: d1 }, InitInstr::RefArrayElem { array_type_index: t2, array_elem_index: d2 }) => t1 == t2 && d1 == d2,
+            (InitInstr::RefI31, InitInstr::RefI31) => true,
+            _ => false,
+        },
+        Err(_) => false,
+    };
+    Some((ok, desc!("kind {} a {} b {}: bytes {:?}", kind, a, b, bytes)))
+}
+
+/// C30/C02: `ref.null <heap type>` in an initialiser is written out and read back as the same heap type (the fourteen abstract heap
+/// types, shared or not, and concrete module type indices < 2^20)
+pub fn k5_initexpr_ref_null_roundtrip<S: Src>(s: &mut S) -> Option<(bool, String)> {
+    use wasm_encoder::Encode;
+    use W::ir::types::{InitExpr, InitInstr};
+    let concrete = s.bool();
+    let h = s.u8();
+    let shared = s.bool();
+    let idx = s.u32();
+    let heap = if concrete {
+        if idx >= (1 << 20) { return None; }
+        HeapType::Concrete(UnpackedIndex::Module(idx))
+    } else {
+        if h > 13 { return None; }
+        HeapType::Abstract { shared, ty: abstract_heap(h) }
+    };
+    let rt = RefType::new(true, heap)?;
+    let ours = W::verif_export::init_expr_to_wasmencoder(&InitExpr::new(vec![InitInstr::RefNull(rt)]));
+    let mut bytes: Vec<u8> = Vec::new();
+    ours.encode(&mut bytes);
+    let cx = wasmparser::ConstExpr::new(wasmparser::BinaryReader::new(&bytes, 0));
+    let ok = match W::verif_export::init_expr_eval(&cx) {
+        Ok(e) => e.exprs.len() == 1 && match e.exprs[0] { InitInstr::RefNull(back) => back == rt, _ => false },
+        Err(_) => false,
+    };
+    Some((ok, desc!("concrete {} heap {} shared {} idx {}: bytes {:?}", concrete, h, shared, idx, bytes)))
+}
+
+/// unsigned LEB128 as the WebAssembly binary format defines it (the oracle of the harness below is written from the
+/// specification, not taken from wasm-encoder or wasmparser)
+pub fn leb_u32(mut v: u32, out: &mut Vec<u8>) {
+    loop {
+        let b = (v & 0x7f) as u8;
+        v >>= 7;
+        if v == 0 { out.push(b); break; } else { out.push(b | 0x80); }
+    }
+}
+/// C30/C07/C06/C02: an index-carrying (or GC) initialiser instruction is written out exactly as the binary format prescribes:
+/// its opcode (0x23 global.get, 0xd2 ref.func, 0xfb 0x00/0x01 struct.new[_default], 0xfb 0x06/0x07 array.new[_default],
+/// 0xfb 0x08/0x09/0x0a array.new_fixed/_data/_elem, 0xfb 0x1c ref.i31), then each immediate as LEB128 IN ITS OWN POSITION
+/// (type index first), then `end`
+pub fn k5_initexpr_index_instr_matches_spec<S: Src>(s: &mut S) -> Option<(bool, String)> {
+    let kind = s.u8();
+    k5_initexpr_index_instr_matches_spec_of(kind, s)
+}
+pub fn k5_initexpr_index_instr_matches_spec_of<S: Src>(kind: u8, s: &mut S) -> Option<(bool, String)> {
+    use wasm_encoder::Encode;
+    use W::ir::id::{FunctionID, GlobalID, TypeID};
+    use W::ir::types::{InitExpr, InitInstr};
+    let a = s.u32();
+    let b = s.u32();
+    if kind > 9 { return None; }
+    let mut exp: Vec<u8> = Vec::new();
+    let instr = match kind {
+        0 => { exp.push(0x23); leb_u32(a, &mut exp); InitInstr::Global(GlobalID(a)) }
+        1 => { exp.push(0xd2); leb_u32(a, &mut exp); InitInstr::RefFunc(FunctionID(a)) }
+        2 => { exp.push(0xfb); exp.push(0x00); leb_u32(a, &mut exp); InitInstr::StructNew(TypeID(a)) }
+        3 => { exp.push(0xfb); exp.push(0x01); leb_u32(a, &mut exp); InitInstr::StructNewDefault(TypeID(a)) }
+        4 => { exp.push(0xfb); exp.push(0x06); leb_u32(a, &mut exp); InitInstr::ArrayNew(TypeID(a)) }
+        5 => { exp.push(0xfb); exp.push(0x07); leb_u32(a, &mut exp); InitInstr::ArrayNewDefault(TypeID(a)) }
+        6 => { exp.push(0xfb); exp.push(0x08); leb_u32(a, &mut exp); leb_u32(b, &mut exp); InitInstr::RefArrayFixed { array_type_index: a, array_size: b } }
+        7 => { exp.push(0xfb); exp.push(0x09); leb_u32(a, &mut exp); leb_u32(b, &mut exp); InitInstr::RefArrayData { array_type_index: a, array_data_index: b } }
+        8 => { exp.push(0xfb); exp.push(0x0a); leb_u32(a, &mut exp); leb_u32(b, &mut exp); InitInstr::RefArrayElem { array_type_index: a, array_elem_index: b } }
+        _ => { exp.push(0xfb); exp.push(0x1c); InitInstr::RefI31 }
+    };
+    exp.push(0x0b);
+    let ours = W::verif_export::init_expr_to_wasmencoder(&InitExpr::new(vec![instr]));
+    let mut bytes: Vec<u8> = Vec::new();
+    ours.encode(&mut bytes);
+    Some((bytes == exp, desc!("kind {} a {} b {}: ours {:?} expected {:?}", kind, a, b, bytes, exp)))
+}
